@@ -296,6 +296,10 @@ class DictDecoder:
             # field can support any object return the value as it is
             return value
 
+        if collections.is_array(value):
+            # Frozen models are encoded with tuples
+            value = list(value)
+
         value = converter.serialize(value)
 
         # Convert value according to the field types
